@@ -2,6 +2,8 @@ import ScrapliModel.Lemmas.Platform
 import ScrapliModel.Lemmas.PlatformPriv
 import ScrapliModel.Props.C04
 import ScrapliModel.Generated.Platforms
+import ScrapliModel.Lemmas.BodiesPlatform
+import ScrapliModel.Generated.BodiesPlatform
 /-!
 # C17 — every advertised platform definition loads and drives a matching device
 
@@ -307,5 +309,19 @@ theorem generated_variants_merge : ∀ f ∈ files, ∀ nv ∈ f.variants,
     defAgree (mergeVariant f.default nv.2) (mergeSpec f.default nv.2) = true
     ∧ (mergeVariant f.default nv.2).options = f.default.options := by
   decide +kernel
+
+/-! ## tie to the source: translated body = model (regenerated on every run) -/
+
+/-- the body of `(*Platform).mergeVariant` as the translator renders it from the current source
+(`Generated/BodiesPlatform.lean`): the eight sections of the receiver end up exactly as the model's
+`mergeVariant p v` says (`options` is not assigned), for every base and variant definition -/
+theorem generated_mergeVariant_eq {L S O : Type} (p v : Sections L S O) :
+    Gen.Bodies.Platform.mergeVariant v p.driverType p.failedWhen p.onOpen p.onClose p.levels p.defaultLevel
+        p.netOnOpen p.netOnClose
+      = ((mergeVariant p v).driverType, (mergeVariant p v).failedWhen, (mergeVariant p v).onOpen,
+          (mergeVariant p v).onClose, (mergeVariant p v).levels, (mergeVariant p v).defaultLevel,
+          (mergeVariant p v).netOnOpen, (mergeVariant p v).netOnClose) := by
+  simp only [Gen.Bodies.Platform.mergeVariant, mergeVariant, mDriverType_eq, mFailedWhen_eq, mOnOpen_eq, mOnClose_eq,
+    mLevels_eq, mDefaultLevel_eq, mNetOnOpen_eq, mNetOnClose_eq, decide_eq_true_eq]
 
 end Scrapli.Platform.C17
